@@ -568,6 +568,8 @@ class RecNative(Entry):
     def impl(self, c):
         import esutil.recfile.Util as U
         a = build(c["array"])
+        if not hasattr(U, "to_native"):        # trees before fix 7fcb8b2: nothing to observe (not a failing input)
+            return {"err": "absent", "msg": "recfile.Util.to_native does not exist in this tree"}
 
         def go():
             r1, o1 = observe(U.to_native, a)
@@ -577,7 +579,7 @@ class RecNative(Entry):
 
     def term(self, c, out):
         if "err" in out:
-            return "3%Z" if not struct_mode_is_mixed(c["array"]["dtype"]) else "1%Z"
+            return "3%Z" if out["err"] != "absent" and not struct_mode_is_mixed(c["array"]["dtype"]) else "1%Z"
         o1, o2 = out["ok"]
         return "v_rec_native %s %s %s %s" % (ml(), carr(c["array"]), cout(o1), cout(o2))
 
